@@ -111,6 +111,47 @@ Proof.
   - inversion H; subst. rewrite Z.eqb_refl. cbn [andb]. apply IH. reflexivity.
 Qed.
 
+Lemma elem_ne_false x y : elem_ne x y = false <-> x = y.
+Proof.
+  unfold elem_ne. rewrite negb_false_iff, andb_true_iff, Nat.eqb_eq, Z.eqb_eq. destruct x, y; cbn [fst snd].
+  split; [intros [-> ->]; reflexivity|intros H; inversion H; split; reflexivity].
+Qed.
+
+Lemma any_ne_false : forall a b, length a = length b -> (any_ne a b = false <-> a = b).
+Proof.
+  induction a as [|x a IH]; intros [|y b] Hl; cbn [length] in Hl; try discriminate; cbn [any_ne].
+  - split; reflexivity.
+  - rewrite orb_false_iff, elem_ne_false, IH by lia. split; [intros [-> ->]; reflexivity|intros H; inversion H; split; reflexivity].
+Qed.
+
+(* The span test as coded (length, then element by element over the zip) decides exactly: "the two spans yield the same
+   sequence of elements" — for every pair of container kinds, no exception. *)
+Theorem spans_differ_spec a b : spans_differ a b = false <-> span_elems a = span_elems b.
+Proof.
+  unfold spans_differ. rewrite orb_false_iff, negb_false_iff, Nat.eqb_eq. split.
+  - intros [Hl Ha]. apply any_ne_false; [unfold span_elems; rewrite !map_length; exact Hl|exact Ha].
+  - intros E. assert (Hl : length (sp_labels a) = length (sp_labels b)).
+    { apply (f_equal (@length _)) in E. unfold span_elems in E. rewrite !map_length in E. exact E. }
+    split; [exact Hl|]. apply any_ne_false; [unfold span_elems; rewrite !map_length; exact Hl|exact E].
+Qed.
+
+(* the same sequence of elements = the same labels, and (unless both spans are empty) elements of the same class:
+   integers (list / tuple / range / ndarray / Index — these may be mixed freely), Periods, or Timestamps *)
+Lemma span_elems_eq a b :
+  span_elems a = span_elems b <->
+  sp_labels a = sp_labels b /\ (sp_labels a = [] \/ elt_class (sp_kind a) = elt_class (sp_kind b)).
+Proof.
+  unfold span_elems. generalize (elt_class (sp_kind a)) (elt_class (sp_kind b)). intros ca cb.
+  generalize (sp_labels a) (sp_labels b). induction l as [|x l IH]; intros [|y l']; cbn [map]; split; try discriminate.
+  - intros _. split; [reflexivity|left; reflexivity].
+  - reflexivity.
+  - intros [H _]. discriminate.
+  - intros [H _]. discriminate.
+  - intros H. inversion H; subst. split; [|right; reflexivity].
+    f_equal. apply IH in H3 as [E _]. exact E.
+  - intros [H [H0|H0]]; [discriminate|]. inversion H; subst. reflexivity.
+Qed.
+
 Lemma fold_max_spec : forall l a,
   let m := fold_left Z.max l a in a <= m /\ Forall (fun x => x <= m) l /\ In m (a :: l).
 Proof.
@@ -122,7 +163,7 @@ Proof.
 Qed.
 
 Lemma ctor_loop_accepts base : forall rest lg ld,
-  (forall ic, In ic rest -> span_ne (si_span (snd ic)) base = Ret false) ->
+  (forall ic, In ic rest -> spans_differ (si_span (snd ic)) base = false) ->
   ctor_loop base rest lg ld =
   Ret (fold_left Z.max (map (fun ic => si_LAGS (snd ic)) rest) lg, fold_left Z.max (map (fun ic => si_LEADS (snd ic)) rest) ld).
 Proof.
@@ -131,48 +172,48 @@ Proof.
 Qed.
 
 Lemma ctor_loop_rejects base : forall rest lg ld,
-  (forall ic, In ic rest -> exists b, span_ne (si_span (snd ic)) base = Ret b) ->
-  (exists ic, In ic rest /\ span_ne (si_span (snd ic)) base = Ret true) ->
+  (exists ic, In ic rest /\ spans_differ (si_span (snd ic)) base = true) ->
   ctor_loop base rest lg ld = Raise InitialisationError.
 Proof.
-  induction rest as [|[i c] r IH]; intros lg ld Hdef (ic & Hi & Hne); [destruct Hi|]. cbn [ctor_loop].
-  destruct (Hdef (i, c)) as [b Hb]; [left; reflexivity|]. cbn [snd] in Hb. rewrite Hb. destruct b; [reflexivity|].
-  apply IH.
-  - intros x Hx. apply Hdef. right. exact Hx.
-  - destruct Hi as [<-|Hi]; [cbn [snd] in Hne; congruence|]. exists ic. split; assumption.
+  induction rest as [|[i c] r IH]; intros lg ld (ic & Hi & Hne); [destruct Hi|]. cbn [ctor_loop].
+  destruct (spans_differ (si_span c) base) eqn:Hb; [reflexivity|].
+  apply IH. destruct Hi as [<-|Hi]; [cbn [snd] in Hne; congruence|]. exists ic. split; assumption.
 Qed.
 
-(* submodels whose spans differ are rejected with InitialisationError — whenever Python can decide `span != span`,
-   which it can for lists and ranges (not for NumPy arrays / pandas indexes: ctor_array_spans_refuted) *)
+(* Submodels whose spans differ — in length or in any position, whatever the container kinds — are rejected with
+   InitialisationError (since fix ee9fcdf there is no kind of span for which the test itself fails). *)
 Theorem ctor_rejects_differing_spans id0 b rest :
-  (forall ic, In ic rest -> exists r, span_ne (si_span (snd ic)) (si_span b) = Ret r) ->
-  (exists ic, In ic rest /\ span_ne (si_span (snd ic)) (si_span b) = Ret true) ->
+  (exists ic, In ic rest /\ span_elems (si_span (snd ic)) <> span_elems (si_span b)) ->
   linker_ctor_M ((id0, b) :: rest) None = Raise InitialisationError.
-Proof. intros H1 H2. cbn [linker_ctor_M]. rewrite (ctor_loop_rejects _ _ _ _ H1 H2). reflexivity. Qed.
+Proof.
+  intros (ic & Hi & Hne). cbn [linker_ctor_M]. rewrite ctor_loop_rejects; [reflexivity|].
+  exists ic. split; [exact Hi|]. destruct (spans_differ (si_span (snd ic)) (si_span b)) eqn:E; [reflexivity|].
+  apply spans_differ_spec in E. contradiction.
+Qed.
 
-(* the same for plain Python lists, spelled out: some submodel's period labels differ from the first one's *)
-Corollary ctor_rejects_differing_list_spans id0 b rest :
-  sp_kind (si_span b) = SList -> (forall ic, In ic rest -> sp_kind (si_span (snd ic)) = SList) ->
+(* spelled out: a different number of periods, or a different label at some position *)
+Corollary ctor_rejects_differing_labels id0 b rest :
   (exists ic, In ic rest /\ sp_labels (si_span (snd ic)) <> sp_labels (si_span b)) ->
   linker_ctor_M ((id0, b) :: rest) None = Raise InitialisationError.
 Proof.
-  intros Hb Hk (ic & Hi & Hne). apply ctor_rejects_differing_spans.
-  - intros x Hx. unfold span_ne. rewrite (Hk x Hx), Hb. eauto.
-  - exists ic. split; [exact Hi|]. unfold span_ne. rewrite (Hk ic Hi), Hb. f_equal.
-    destruct (zlist_eqb (sp_labels (si_span (snd ic))) (sp_labels (si_span b))) eqn:E; [|reflexivity].
-    apply zlist_eqb_eq in E. contradiction.
+  intros (ic & Hi & Hne). apply ctor_rejects_differing_spans. exists ic. split; [exact Hi|].
+  intros E. apply span_elems_eq in E as [E _]. contradiction.
 Qed.
 
-(* identical spans: accepted; the linker takes the first submodel's span and the LARGEST class-level LAGS / LEADS *)
+(* Identical spans of ANY kind (list, tuple, range, NumPy array, pandas Index / PeriodIndex / DatetimeIndex — and mixed
+   integer-labelled kinds, e.g. a list and a range with equal elements) are accepted; the linker takes the first
+   submodel's span and the LARGEST class-level LAGS / LEADS.  Replaces the refutation that held before fix ee9fcdf. *)
 Theorem lags_leads_are_maxima id0 b rest :
-  (forall ic, In ic rest -> span_ne (si_span (snd ic)) (si_span b) = Ret false) ->
+  (forall ic, In ic rest -> span_elems (si_span (snd ic)) = span_elems (si_span b)) ->
   exists L D, linker_ctor_M ((id0, b) :: rest) None = Ret (si_span b, L, D) /\
     (forall ic, In ic ((id0, b) :: rest) -> si_LAGS (snd ic) <= L) /\
     (exists ic, In ic ((id0, b) :: rest) /\ si_LAGS (snd ic) = L) /\
     (forall ic, In ic ((id0, b) :: rest) -> si_LEADS (snd ic) <= D) /\
     (exists ic, In ic ((id0, b) :: rest) /\ si_LEADS (snd ic) = D).
 Proof.
-  intros H. cbn [linker_ctor_M]. rewrite (ctor_loop_accepts _ _ _ _ H).
+  intros H0. assert (H : forall ic, In ic rest -> spans_differ (si_span (snd ic)) (si_span b) = false).
+  { intros ic Hi. apply spans_differ_spec. apply H0. exact Hi. }
+  cbn [linker_ctor_M]. rewrite (ctor_loop_accepts _ _ _ _ H).
   set (ls := map (fun ic : sid * subinfo => si_LAGS (snd ic)) rest).
   set (ds := map (fun ic : sid * subinfo => si_LEADS (snd ic)) rest).
   destruct (fold_max_spec ls (si_LAGS b)) as (A1 & A2 & A3). destruct (fold_max_spec ds (si_LEADS b)) as (B1 & B2 & B3).
@@ -185,6 +226,27 @@ Proof.
   - apply (In_map (fun ic => si_LAGS (snd ic))). exact A3.
   - intros ic [<-|Hi]; [exact B1|]. apply B2. unfold ds. apply in_map_iff. exists ic. split; [reflexivity|exact Hi].
   - apply (In_map (fun ic => si_LEADS (snd ic))). exact B3.
+Qed.
+
+(* in particular: every submodel carrying literally the same span value, of whatever kind *)
+Corollary ctor_accepts_identical_spans_any_kind id0 b rest :
+  (forall ic, In ic rest -> si_span (snd ic) = si_span b) ->
+  exists L D, linker_ctor_M ((id0, b) :: rest) None = Ret (si_span b, L, D).
+Proof.
+  intros H. destruct (lags_leads_are_maxima id0 b rest) as (L0 & D0 & E & _); [|eauto].
+  intros ic Hi. rewrite (H ic Hi). reflexivity.
+Qed.
+
+(* the constructor decides: accepted iff every later submodel yields the first one's sequence of elements *)
+Theorem ctor_accepts_iff id0 b rest :
+  (exists r, linker_ctor_M ((id0, b) :: rest) None = Ret r) <->
+  (forall ic, In ic rest -> span_elems (si_span (snd ic)) = span_elems (si_span b)).
+Proof.
+  split.
+  - intros [r Hr] ic Hi.
+    destruct (spans_differ (si_span (snd ic)) (si_span b)) eqn:E; [|apply spans_differ_spec; exact E].
+    cbn [linker_ctor_M] in Hr. rewrite ctor_loop_rejects in Hr; [discriminate|]. exists ic. split; assumption.
+  - intros H. destruct (lags_leads_are_maxima id0 b rest H) as (L0 & D0 & E & _). eauto.
 Qed.
 
 (* no submodels: lags = leads = 0, span as given (default: empty) *)
